@@ -526,3 +526,174 @@ func (c *Ctx) tokensAlike(rule string, fi *FuncInfo, pkgFuncs []*FuncInfo, claus
 	}
 	return n
 }
+
+// REORIENT-ALWAYS (go/cfg): the methods of Tree whose contract is "re-root the tree on the node /
+// outgroup / branch given" re-orient the branches on every successful exit: the root pointer may
+// already be the node asked for while the branches still point towards an older root (SetRoot is
+// exported and says so), and every index computed afterwards follows the orientation. An "already
+// rooted there, nothing to do" exit leaves bit sets, side counts and hashes describing other splits.
+func (c *Ctx) reorientAlways(rule string, funcs []*FuncInfo, clause string) int {
+	n := 0
+	is := func(f *types.Func) bool { return isRepoFunc(f, "tree", "Tree", "ReorderEdges") }
+	for _, fi := range funcs {
+		if fi == nil || fi.Decl.Body == nil {
+			continue
+		}
+		info := fi.Pkg.TypesInfo
+		n++
+		key := fi.Name() + "/reorients-on-success"
+		g := c.cfgOf(info, fi.Decl.Body)
+		res := mustPassFromEntryEx(g, func(m ast.Node) bool {
+			return containsCall(info, m, func(cl *ast.CallExpr, h *types.Func) bool {
+				return h != nil && inRepo(h) && c.reaches(h, is, 4, map[*types.Func]bool{})
+			})
+		}, func(ret *ast.ReturnStmt) bool { return c.succeedsOnPath(info, fi.Decl.Body, ret) })
+		if res.ok {
+			c.OK(rule, key, fi.Decl.Pos(), "every successful exit has re-oriented the branches").Clause = clause
+		} else {
+			_, ln := c.pos(res.escape)
+			c.Violation(rule, key, fi.Decl.Pos(), fmt.Sprintf("%s can report success at line %d without having re-oriented the branches (no call reaching ReorderEdges on that path): when the root pointer was already there but the branches were not (SetRoot), the indexes computed afterwards describe other splits than the tree's", fi.Obj.Name(), ln)).Clause = clause
+		}
+	}
+	return n
+}
+
+// FRESH-FRONTIER: a level-by-level walk keeps two slices, the level being read and the next one being
+// appended to, and hands the second over to the first at the end of each round (`nodes = nextnodes`).
+// The handed-over slice must be a fresh one in every round (declared, or assigned make/nil/a literal,
+// inside the loop): re-using one buffer (`next = next[:0]`) makes both names share a backing array
+// from the second round on, and appending the next level overwrites entries of the current level
+// that have not been read yet - some nodes get a wrong depth, others none.
+func (c *Ctx) freshFrontier(rule string, funcs []*FuncInfo, clause string) int {
+	n := 0
+	for _, fi := range funcs {
+		if fi == nil || fi.Decl.Body == nil {
+			continue
+		}
+		info := fi.Pkg.TypesInfo
+		isSlice := func(o types.Object) bool {
+			if o == nil {
+				return false
+			}
+			_, ok := o.Type().Underlying().(*types.Slice)
+			return ok
+		}
+		ast.Inspect(fi.Decl.Body, func(nd ast.Node) bool {
+			var body *ast.BlockStmt
+			switch l := nd.(type) {
+			case *ast.ForStmt:
+				body = l.Body
+			case *ast.RangeStmt:
+				body = l.Body
+			}
+			if body == nil {
+				return true
+			}
+			// handovers directly in this loop's body (any depth, but not inside closures)
+			ast.Inspect(body, func(m ast.Node) bool {
+				if _, isLit := m.(*ast.FuncLit); isLit {
+					return false
+				}
+				as, ok := m.(*ast.AssignStmt)
+				if !ok || as.Tok != token.ASSIGN || len(as.Lhs) != 1 || len(as.Rhs) != 1 {
+					return true
+				}
+				a, b := identObj(info, as.Lhs[0]), identObj(info, as.Rhs[0])
+				if a == nil || b == nil || a == b || !isSlice(a) || !isSlice(b) {
+					return true
+				}
+				if _, isId := unparen(as.Rhs[0]).(*ast.Ident); !isId {
+					return true
+				}
+				// a lives across rounds (declared outside the loop) and is read in it; b is appended to in it
+				if a.Pos() >= body.Pos() && a.Pos() < body.End() {
+					return true
+				}
+				appended, fresh, reused := false, false, false
+				if b.Pos() >= body.Pos() && b.Pos() < body.End() {
+					fresh = true
+				}
+				ast.Inspect(body, func(q ast.Node) bool {
+					as2, isAs := q.(*ast.AssignStmt)
+					if !isAs || len(as2.Lhs) != 1 || len(as2.Rhs) != 1 || identObj(info, as2.Lhs[0]) != b {
+						return true
+					}
+					switch r := unparen(as2.Rhs[0]).(type) {
+					case *ast.CallExpr:
+						if id, isId := r.Fun.(*ast.Ident); isId && id.Name == "append" && len(r.Args) > 0 && identObj(info, r.Args[0]) == b {
+							appended = true
+						} else if isId && id.Name == "make" {
+							fresh = true
+						}
+					case *ast.CompositeLit:
+						fresh = true
+					case *ast.Ident:
+						if r.Name == "nil" {
+							fresh = true
+						}
+					case *ast.SliceExpr:
+						if identObj(info, r.X) == b {
+							reused = true
+						}
+					}
+					return true
+				})
+				if !appended {
+					return true
+				}
+				n++
+				key := fmt.Sprintf("%s/%s=%s", funcName(fi.Obj), a.Name(), b.Name())
+				c.Check(fresh && !reused, rule, key, as.Pos(),
+					fmt.Sprintf("`%s` is a new slice in every round before it is handed over to `%s`", b.Name(), a.Name()),
+					fmt.Sprintf("`%s` is appended to in this loop and handed over to `%s`, which the loop reads in the next round, but it is not a new slice in every round: after the first handover both names share one backing array, and appending the next level overwrites entries of the current one that have not been read yet", b.Name(), a.Name())).Clause = clause
+				return true
+			})
+			return true
+		})
+	}
+	return n
+}
+
+// APPEND-ALWAYS (go/cfg): the collector of the trees of a Nexus file (Nexus.AddTree) appends to each
+// of its parallel lists on every path to its exit: a tree is never merged with, or replaced by,
+// another one because of its name or content - every TREE statement of the file is one tree for the
+// iterators, the samplers and the converters, in file order.
+func (c *Ctx) appendAlways(rule string, fi *FuncInfo, fields []string, clause string) int {
+	if fi == nil || fi.Decl.Body == nil {
+		return 0
+	}
+	info := fi.Pkg.TypesInfo
+	g := c.cfgOf(info, fi.Decl.Body)
+	n := 0
+	for _, fld := range fields {
+		n++
+		key := funcName(fi.Obj) + "/" + fld
+		res := mustPassFromEntryEx(g, func(m ast.Node) bool {
+			as, ok := m.(*ast.AssignStmt)
+			if !ok || len(as.Lhs) != 1 || len(as.Rhs) != 1 {
+				return false
+			}
+			sel, isSel := unparen(as.Lhs[0]).(*ast.SelectorExpr)
+			if !isSel || sel.Sel.Name != fld {
+				return false
+			}
+			call, isCall := unparen(as.Rhs[0]).(*ast.CallExpr)
+			if !isCall || len(call.Args) < 2 {
+				return false
+			}
+			id, isId := call.Fun.(*ast.Ident)
+			if !isId || id.Name != "append" {
+				return false
+			}
+			s2, isSel2 := unparen(call.Args[0]).(*ast.SelectorExpr)
+			return isSel2 && s2.Sel.Name == fld
+		}, func(ret *ast.ReturnStmt) bool { return true })
+		if res.ok {
+			c.OK(rule, key, fi.Decl.Pos(), "every path to the exit appends to `"+fld+"`").Clause = clause
+		} else {
+			_, ln := c.pos(res.escape)
+			c.Violation(rule, key, fi.Decl.Pos(), fmt.Sprintf("%s can leave at line %d without having appended to `%s`: a tree handed to the collector is dropped or takes the place of another one, so the file's trees are no longer delivered one by one (a sampler never sees the dropped ones)", fi.Obj.Name(), ln, fld)).Clause = clause
+		}
+	}
+	return n
+}
